@@ -64,6 +64,8 @@ mod imp {
         LoadBuffer,
         LoadBuffer2,
         Sort,
+        SetRef2Text,
+        SetFilename,
         // readers
         SerializeA,
         SerializeB,
@@ -81,13 +83,13 @@ mod imp {
     use Op::*;
 
     /// the operations that are paired with each other; writers first (signatures name the lower index first)
-    const MAIN: [Op; 21] = [
+    const MAIN: [Op; 23] = [
         CreateNamed, RemoveSub, SetItemName, MoveHere, SetCdata, SetRefTarget, SetComment, SetAttribute, CreateFile, RemoveFile,
-        LoadBuffer, LoadBuffer2, Sort, SerializeA, SerializeB, Path, DfsCount, CheckRefs, GetByPath, GetRefsTo, IdentCount,
+        LoadBuffer, LoadBuffer2, Sort, SetRef2Text, SetFilename, SerializeA, SerializeB, Path, DfsCount, CheckRefs, GetByPath, GetRefsTo, IdentCount,
     ];
-    const ALL: [Op; 24] = [
+    const ALL: [Op; 26] = [
         CreateNamed, RemoveSub, SetItemName, MoveHere, SetCdata, SetRefTarget, SetComment, SetAttribute, CreateFile, RemoveFile,
-        LoadBuffer, LoadBuffer2, Sort, SerializeA, SerializeB, Path, DfsCount, CheckRefs, GetByPath, GetRefsTo, IdentCount, LoadEmpty1,
+        LoadBuffer, LoadBuffer2, Sort, SetRef2Text, SetFilename, SerializeA, SerializeB, Path, DfsCount, CheckRefs, GetByPath, GetRefsTo, IdentCount, LoadEmpty1,
         LoadEmpty2, MoveToAncestor,
     ];
 
@@ -107,6 +109,8 @@ mod imp {
                 LoadBuffer => "load_buffer",
                 LoadBuffer2 => "load_buffer_2",
                 Sort => "sort",
+                SetRef2Text => "set_character_data_ref2",
+                SetFilename => "set_filename",
                 SerializeA => "serialize_a",
                 SerializeB => "serialize_b",
                 Path => "path",
@@ -136,6 +140,8 @@ mod imp {
                 LoadBuffer => "model.load_buffer(doc with /pkgL/sysL referring to /pkg2/ecu2, \"l.arxml\", strict)",
                 LoadBuffer2 => "model.load_buffer(doc with /pkgM/ecuM, \"m.arxml\", strict)",
                 Sort => "model.sort()",
+                SetRef2Text => "ref2 (second FIBEX-ELEMENT-REF of /pkg1/sys, -> /pkg2/ecu2) .set_character_data(\"/pkg1/ecu\")",
+                SetFilename => "a.arxml .set_filename(\"z.arxml\")",
                 SerializeA => "a.arxml .serialize()",
                 SerializeB => "b.arxml .serialize()",
                 Path => "/pkg2/ecu2 .path()",
@@ -150,7 +156,7 @@ mod imp {
             }
         }
         fn is_writer(self) -> bool {
-            (self as usize) < 13 || matches!(self, LoadEmpty1 | LoadEmpty2 | MoveToAncestor)
+            (self as usize) < 15 || matches!(self, LoadEmpty1 | LoadEmpty2 | MoveToAncestor)
         }
         fn main_index(self) -> usize {
             MAIN.iter().position(|o| *o == self).unwrap_or(usize::MAX)
@@ -216,6 +222,7 @@ mod imp {
         sub: Element,
         cdata: Element,
         ref1: Element,
+        ref2: Element,
         roles: BTreeMap<u64, String>,
     }
 
@@ -280,7 +287,7 @@ mod imp {
                     let _ = write!(role, "[{}]", *n);
                 }
             }
-            Fx { base, size, model, model2, fa, fb, pkgs, pkg2, el1, el2, ecu2, sub, cdata, ref1, roles }
+            Fx { base, size, model, model2, fa, fb, pkgs, pkg2, el1, el2, ecu2, sub, cdata, ref1, ref2, roles }
         }
 
         /// lock id as written to files: relative to the fixture, `new<k>` for locks created after the fixture
@@ -374,6 +381,14 @@ mod imp {
                         m.sort();
                         Ret::Plain("()".into())
                     })
+                }
+                SetRef2Text => {
+                    let e = self.ref2.clone();
+                    Box::new(move || Ret::Unit(e.set_character_data("/pkg1/ecu")))
+                }
+                SetFilename => {
+                    let f = self.fa.clone();
+                    Box::new(move || Ret::Unit(f.set_filename("z.arxml")))
                 }
                 SerializeA => {
                     let f = self.fa.clone();
@@ -1317,7 +1332,7 @@ mod imp {
         cx.k.stats.insert("pairs".into(), pairs.len() as u64);
         cx.k.stats.insert("preemption_bound".into(), budget.bound as u64);
         // if the machine is slow, the remaining combinations share the remaining time (fewer schedules each)
-        let explore_deadline = t_start + if thorough { Duration::from_secs(10 * 60) } else { Duration::from_secs(38) };
+        let explore_deadline = t_start + if thorough { Duration::from_secs(10 * 60) } else { Duration::from_secs(50) };
         for (i, p) in pairs.iter().enumerate() {
             let share = explore_deadline.saturating_duration_since(Instant::now()) / (pairs.len() - i) as u32;
             let budget = Budget { time: budget.time.min(share * 3), ..budget };
